@@ -163,8 +163,9 @@ pub fn jinfo(rich: bool) -> BoxedStrategy<Option<Vec<(String, J)>>> {
         .boxed()
     } else {
         prop_oneof![
-            1 => Just(None),
-            2 => (0i64..1000).prop_map(|n| Some(vec![("n".to_string(), J::I(n))])),
+            2 => Just(None),
+            1 => Just(Some(vec![])),
+            4 => (0i64..1000).prop_map(|n| Some(vec![("n".to_string(), J::I(n))])),
         ]
         .boxed()
     }
@@ -605,7 +606,7 @@ pub fn apply_edit(root: &mut Node, steps: &[EditStep]) -> usize {
                 for _ in 0..*n {
                     // ids outside the small pool: e00, e01, ...
                     let id = loop {
-                        let c = format!("e{:02}", k);
+                        let c = format!("e{:03}", k);
                         k += 1;
                         if !used.iter().any(|u| *u == c) {
                             break c;
@@ -666,7 +667,7 @@ pub fn edit_step(rich: bool) -> BoxedStrategy<EditStep> {
         )
             .prop_map(|(items, t, o)| EditStep::Replace { items, t, o }),
         1 => Just(EditStep::Clear),
-        1 => (any::<u16>(), 5u8..30, prop::option::of(jlight())).prop_map(|(arr, n, v)| EditStep::Bulk { arr, n, v }),
+        1 => (any::<u16>(), prop_oneof![4 => 5u8..30, 1 => 100u8..140], prop::option::of(jlight())).prop_map(|(arr, n, v)| EditStep::Bulk { arr, n, v }),
     ]
     .boxed()
 }
